@@ -611,6 +611,21 @@ func (e *Engine) instrMods(fn *ssa.Function, in ssa.Instruction, ms *modSet, r *
 	case *ssa.UnOp:
 		if x.Op == token.ARROW {
 			ms.ghosts["recvs"] = true
+			// fields forgotten at the receive ("recvhavoc")
+			if u, ok := x.X.(*ssa.UnOp); ok && u.Op == token.MUL && e.cs.RecvHavoc != nil {
+				if fa, ok := u.X.(*ssa.FieldAddr); ok {
+					if pt, ok := fa.X.Type().Underlying().(*types.Pointer); ok {
+						if stt, ok := under(pt.Elem()).(*types.Struct); ok {
+							if n, ok := types.Unalias(pt.Elem()).(*types.Named); ok && n.Obj().Pkg() != nil {
+								key := n.Obj().Pkg().Path() + "::" + n.Obj().Name() + "." + stt.Field(fa.Field).Name()
+								for _, f := range e.cs.RecvHavoc[key] {
+									ms.keys[rootKeyOf(pt.Elem())+"|"+f] = true
+								}
+							}
+						}
+					}
+				}
+			}
 		}
 	case *ssa.Call, *ssa.Defer, *ssa.Go:
 		var c *ssa.CallCommon
